@@ -105,6 +105,15 @@ var Templates = []*Template{
 		Stmt:    func(r *world.PRNG, k int) string { return fmt.Sprintf("vfOld%d(%s)", k, GenExpr(r, 1)) },
 	},
 	{
+		// the patched file is shorter than the original
+		Name:    "shrink",
+		Patch:   func(k int) string { return fmt.Sprintf("@@\nvar x expression\n@@\n-vfOld%dWithAVeryLongDescriptiveName(x, nil, nil, nil)\n+vf%d(x)\n", k, k) },
+		Trigger: func(k int) string { return fmt.Sprintf("vfOld%dWithAVeryLongDescriptiveName", k) },
+		Stmt: func(r *world.PRNG, k int) string {
+			return fmt.Sprintf("vfOld%dWithAVeryLongDescriptiveName(%s, nil, nil, nil)", k, GenExpr(r, 1))
+		},
+	},
+	{
 		// meant to be combined with others: its instance spans several lines and
 		// embeds a further call, so another change can match inside the elided part
 		Name:    "dots-multiline",
